@@ -12,6 +12,7 @@ import gc
 import os
 import sys
 import termios
+from pathlib import Path
 
 from . import imgs, iterkit, lexer
 
@@ -204,8 +205,7 @@ _files: dict = {}
 def image_file(frames: int, w: int = 6, h: int = 6) -> str:
     key = (frames, w, h)
     if key not in _files:
-        d = imgs.TMP / "draw"
-        d.mkdir(parents=True, exist_ok=True)
+        d = imgs.tmpdir("draw") if not _files else Path(next(iter(_files.values()))).parent
         path = d / f"f{frames}-{w}x{h}.{'gif' if frames > 1 else 'png'}"
         from PIL import Image
 
